@@ -46,6 +46,9 @@ CLAIMED["C11"] = dict(engine="codec", tech="TLA+ model Codec.tla of the reply bu
 CLAIMED["C05"] = dict(engine="pending", tech="TLA+ model Pending.tla (lock regions of processCommand / trySubmitCommandResult) checked by TLC over every interleaving of a small instance; each generated interleaving is forced onto the real goroutines through gates at verif hooks between the lock regions; probe schedules from the finer-grained model and perturbed free runs with an adversarial responder; TLC monitor PendObs (C05_OwnIdOnly, C05_AtMostOnce, C05_DupRejected, C05_Completes, C05_UnknownToStream, C05_TableEmpty)",
    text="Exhaustive over the interleavings of the model for 2 callers sharing an id (thorough: 3 callers, 3 response ids) with cancellation; every such schedule is executed on the real channel (forced through gates, so the real code is driven through the 7-8 step races no stress test hits) and the recorded history is checked by TLC; free runs sample larger workloads.", ref="DESIGN.md 3.3, 5 (C05)",
    note="Gates sit outside the locks, so a forced schedule is an execution the Go scheduler could produce; schedules with both select arms ready are left to the free runs; TLC result holds for the stated instance sizes; trusted: TLC, CommunityModules Json, Go runtime.")
+CLAIMED["C18"] = dict(engine="server-life", tech="TLA+ model ServerLife.tla (acceptors, consumer, session goroutines, the three steps of Close, select arms incl. the panicking ones) checked exhaustively by TLC; schedules drawn from the model by seeded TLC simulation are forced onto a real Server through gates at verif hooks, one child process per case; TLC monitor SrvObs (C18_NoPanic, C18_ServeReturnsClosed, C18_CallbacksExact, C18_AllFinished, C18_NoLeak)",
+   text="Every placement of the Close steps relative to start-up, accept, enqueue, consume, handshake outcomes and established sessions is checked on the model; about 300 (thorough: 3000) of those schedules are driven through a real Server with real clients, process death = panic, goroutine census at the end.", ref="DESIGN.md 3.5, 5 (C18)",
+   note="Model exhaustive for 1 listener / 2 connections / queue capacity 1; real-code side samples schedules (seeded); a Go select's arm cannot be forced, so verdicts come from the monitor on what really happened; in-process listeners in the quick tier; trusted: TLC, CommunityModules Json, Go runtime.")
 CLAIMED["C06"]["engine"] = "hs-server+hs-client"
 CLAIMED["C06"]["note"] = HS_NOTE + " Both roles: server role on HsServer behaviours, client role on HsClient behaviours."
 CLAIMED["C06"]["tech"] += " and HsClient.tla + C06_ClientSendGuard for the client role"
@@ -79,6 +82,9 @@ m = {
            "baseline_off_cmd": "cd /repo && GOFLAGS=-mod=mod GOPROXY=off GOSUMDB=off GOTOOLCHAIN=local go test -json -vet=off -count=1 -timeout 25m ./...",
            "source_commits": hook_commits, "add_only": True},
  "engines": [
+   {"name": "server-life", "path": "spec/ServerLife.tla spec/ServerLifeMC.tla spec/SrvProps.tla spec/SrvObs.tla harness/srvlife tools/engines/srvlife.py",
+    "serves_properties": ["C18"],
+    "kind_free_text": "TLA+ model of Server start/serve/stop, exhaustive TLC check, simulated schedules forced on a real Server via hook gates (process per case), TLC trace monitor"},
    {"name": "pending", "path": "spec/Pending.tla spec/PendingMC.tla spec/PendingProps.tla spec/PendObs.tla harness/pend tools/engines/pending.py",
     "serves_properties": ["C05"],
     "kind_free_text": "TLA+ model of the pending-command table at lock-region granularity, TLC over all interleavings, forced-schedule replay on real goroutines through hook gates, perturbed free runs, TLC trace monitor"},
